@@ -451,6 +451,8 @@ async fn run_e(serial: u64, with_gen: bool, nreq: usize) -> Result<String, Strin
     let mut b = SessionBuilder::new()
         .known_node_addr(cluster.contact_point(0))
         .local_ip_address(Some(cluster.client_ip()))
+        // no periodic metadata refresh inside (or across the boundary of) the observation window
+        .cluster_metadata_refresh_interval(Duration::from_secs(3600))
         .connection_timeout(Duration::from_secs(5));
     if with_gen {
         b = b.timestamp_generator(counting.clone());
@@ -668,12 +670,20 @@ fn main() {
         budget -= (threads * 2_000) as i64;
     }
     // FIXED number of cases of every kind, independent of the seed (checks/c18.py floors are below these counts):
-    // T 15 + 3 + 12 = 30, B 5, C 9, E 12 (quick) / 60 (thorough); the seeded part below only adds to them
+    // T 15 + 3 + 3 + 12 = 33, B 5, C 9, E 12 (quick) / 60 (thorough); the seeded part below only adds to them
     for (pace, warn) in [(0u64, 0u64), (1, 1), (2, 0), (0, 1), (1, 0)] {
         let calls = if pace == 1 { 5_000 } else { 40_000 };
         serial += 1;
         emit(&mut out, format!("B {:x} {:x} {:x} {:x}", serial, warn, calls, pace));
         budget -= calls as i64;
+    }
+    // contention that does not depend on how many CPUs really run in parallel: yield_now after every call hands the
+    // CPU to another thread of the same generator even on ONE starved core (measured there: ~36 000 / 35 000 / 13 000
+    // cross-thread adjacent values for these three cases; the floor in checks/c18.py is 10 000)
+    for (threads, warn) in [(16u64, 0u64), (16, 1), (8, 2)] {
+        serial += 1;
+        emit(&mut out, format!("T {:x} {:x} {:x} {:x} 2", serial, warn, threads, 3_000));
+        budget -= (threads * 3_000) as i64;
     }
     // tick sweep on the real clock and the scripted-clock paces, for few and many threads
     for pace in [5u64, 6, 7] {
